@@ -3,6 +3,7 @@
 
     q <hex s>        quote `s`, read the result back           obs: `<hex quoted> <fields>`   spec: ok / FAIL:…
     w <hex text>     read back arbitrary argument text          obs: `<fields>`                spec: -
+    d <hex text>     the same for arguments of a declaration utility  obs: `<fields>`            spec: -
     c <code point>   character classes                          obs: `ws=… needs=… blank=… delim=…`  spec: -
     L <listing case> (see Listing.lean)
 
@@ -36,6 +37,11 @@ def runW (t : String) : String :=
   | none => "bad-case\t-"
   | some s => s!"{showFields (readBack s)}\t-"
 
+def runD (t : String) : String :=
+  match decChars t with
+  | none => "bad-case\t-"
+  | some s => s!"{showFields (readBackDecl s)}\t-"
+
 def runC (t : String) : String :=
   match t.toNat? with
   | none => "bad-case\t-"
@@ -47,6 +53,7 @@ def runLine (line : String) : String :=
   match words line with
   | ["q", t] => runQ t
   | ["w", t] => runW t
+  | ["d", t] => runD t
   | ["c", t] => runC t
   | "L" :: rest => Listing.runL rest
   | _ => "bad-case\t-"
